@@ -22,10 +22,11 @@ META = {
         "receiving a config hands that very object to the package constructors it calls, so the version of the caller's Config "
         "(not the shared DEFAULT) decides the form for every server class and transport; C13.7 (shared with C14.4) jsonrpc.dump builds its "
         "Payload with the caller's version, defaulting to the version of the config argument it was given - the per-request adapter - "
-        "and of nothing else (not the configuration stored in a Fault returned by user code)."),
+        "and of nothing else (not the configuration stored in a Fault returned by user code). C13.8 (imported from C02.1) no exception escapes the per-request dispatch into do_POST, whose request-less fault is built with the server's configuration - i.e. in the server's form whatever the request's version was."),
     "does_not_decide": "isolation between concurrently served requests as an observed behaviour (only the absence "
                        "of shared mutable serving state is decided).",
-    "rules": {"C13.1": "provenance / ownership of the receiver of every Config-field store (E3)",
+    "rules": {"C13.8": "imported C02.1 (E4 may-raise closure of the serving path)",
+              "C13.1": "provenance / ownership of the receiver of every Config-field store (E3)",
               "C13.2": "sibling agreement Config.__init__ <-> Config.copy",
               "C13.3": "call-graph closure from the serving entry points + store scan with receiver provenance",
               "C13.4": "provenance of the config= argument at response constructor sites",
@@ -312,3 +313,8 @@ def check(ck):
     common.import_rules(ck, c14, {"C14.4": "C13.7"})
     ck.floor("C13.7", 10)
     common.check_config_defaults(ck, "C13.6", ("version",))
+
+    # ---- C13.8 nothing escapes into the request-less fault of do_POST (shared with C02.1) ----------------------------------
+    from rules import c02 as _c02e, common as _cme
+    _cme.import_rules(ck, _c02e, {"C02.1": "C13.8"})
+    ck.floor("C13.8", 10)
